@@ -503,6 +503,18 @@ def _comp_spec(c, kind, sp):
     return cond_spec(c, sp)
 
 
+def _only_component(part, k):
+    """k is the part's only component that is not null (several components in shorthand form are combined by the parser in
+    ITS order of prefixes, which re-associates the chain: DESIGN section 7 items 18 and 30)"""
+    for o in ("condition", "map_condition", "list_condition", "key", "index", "value"):
+        c = part.get(o)
+        if o == k or c is None:
+            continue
+        if (type(c) is dict and "prim" in c and "c" not in c) or M.simplify(c)["c"] != "null":
+            return False
+    return True
+
+
 def part_spec(part, sp=None, shorthand=False):
     sp = sp or Spelling()
     p = part["p"]
@@ -522,6 +534,18 @@ def part_spec(part, sp=None, shorthand=False):
         if not is_prim and M.simplify(c)["c"] == "null":
             continue  # a null component is spelled by leaving it out
         single_leaf = is_prim or c.get("c") == "leaf"
+        if (not is_prim and c.get("c") == "and" and c["a"].get("c") == "leaf" and c["b"].get("c") == "leaf"
+                and c["a"]["kind"] == k and c["b"]["kind"] == k and _only_component(part, k)
+                and sp.pick([False, True], "two-shorthands")):
+            # (round 13) `a & b` for one datum written as TWO shorthand keys of the same prefix, in this order
+            two = []
+            for l in (c["a"], c["b"]):
+                (sk, sv), = leaf_spec(l, sp).items()
+                first, _, rest = sk.partition(".")
+                two.append((first.lower() + "." + rest, sv))
+            if two[0][0] != two[1][0] and two[0][0] not in out and two[1][0] not in out:
+                out[two[0][0]], out[two[1][0]] = two[0][1], two[1][1]
+                continue
         if (not is_prim and c.get("c") == "and" and c["a"].get("c") == "leaf" and M.simplify(c["b"])["c"] != "null"
                 and c["a"]["kind"] == k and sp.pick([False, True], "shorthand+long")):
             # `a & b` for one datum written as the shorthand for a plus the long form for b
